@@ -2,6 +2,7 @@
 
 import hashlib
 import json
+import re
 
 from esim import prog as P
 from esim import seams, sched as _sched
@@ -85,7 +86,7 @@ def trace_digest(rc):
                 h.update(repr((r.seq, r.actor)).encode())
     f = getattr(rc, "file", None)
     if f is not None:
-        h.update(f.os_cache)
+        h.update(re.sub(rb" at 0x[0-9a-fA-F]+", b" at 0xX", f.os_cache))
         h.update(repr(len(f.calls)).encode())
     return h.hexdigest()
 
@@ -100,10 +101,19 @@ def _safe_default(o):
         return "<%s>" % type(o).__name__
 
 
+_ADDR = re.compile(r" at 0x[0-9a-fA-F]+")
+
+
 def canon_msg(m):
+    """Canonical text of a message; memory addresses inside reprs (they end up
+    in failure reports' renderings) are masked."""
     try:
-        return json.dumps(m, sort_keys=True, default=_safe_default)
+        out = json.dumps(m, sort_keys=True, default=_safe_default)
     except BaseException:  # noqa
         if isinstance(m, dict):
-            return repr(sorted((str(k), _safe_default(v)) for k, v in m.items()))
-        return _safe_default(m)
+            out = repr(sorted((str(k), _safe_default(v)) for k, v in m.items()))
+        else:
+            out = _safe_default(m)
+    if " at 0x" in out:
+        out = _ADDR.sub(" at 0xX", out)
+    return out
